@@ -113,6 +113,33 @@ def _single_def(b, l):
 _NAMED_INTS = {}      # named integer constants met while rendering sites (a reviewed `[..12]` is the same site as `[..HASH12_LEN]`)
 
 
+def _const_set(t, depth=0):
+    """the finite set of integers a term built from constants, merges of constants and +/- can be (None when it is not such a term)"""
+    t = T.strip(t)
+    v = T.fold_int(t)
+    if v is not None:
+        return {v}
+    if depth > 6:
+        return None
+    if t[0] == "phi":
+        out = set()
+        for x in t[1]:
+            sx = _const_set(x, depth + 1)
+            if not sx:
+                return None
+            out |= sx
+        return out if len(out) <= 16 else None
+    if t[0] == "field" and T.strip(t[1])[0] == "binop" and t[2] in (0, "0"):
+        return _const_set(t[1], depth + 1)
+    if t[0] == "binop" and t[1] in ("Sub", "SubWithOverflow", "Add", "AddWithOverflow") and len(t) >= 4:
+        sa, sb = _const_set(t[2], depth + 1), _const_set(t[3], depth + 1)
+        if not sa or not sb:
+            return None
+        out = {(a - b) if t[1].startswith("Sub") else (a + b) for a in sa for b in sb}
+        return out if len(out) <= 16 and all(x >= 0 for x in out) else None
+    return None
+
+
 def _fold_named(detail):
     return re.sub(r"\b[A-Z][A-Z0-9_]+\b", lambda m: str(_NAMED_INTS[m.group(0)]) if m.group(0) in _NAMED_INTS else m.group(0), detail)
 
@@ -277,6 +304,10 @@ def discharge(P, ctxs, ob):
                 bn, bo = ax.lin(ops[1], g)
                 if g.le(bn, an, ao - bo):
                     return True, "minuend >= subtrahend by dominating conditions / constants", detail
+                # a subtrahend chosen among constants (`let min = if v6 { MIN_TCP6 } else { MIN_TCP4 }; MTU - min`): each alternative
+                sa, sb = _const_set(ops[0]), _const_set(ops[1])
+                if sa and sb and min(sa) >= max(sb):
+                    return True, "minuend >= every constant the subtrahend can be", detail
                 return False, "cannot show a >= b", detail
             if op in ("Add", "Mul"):
                 ka, kb = T.fold_int(ops[0]), T.fold_int(ops[1])
@@ -953,7 +984,17 @@ def rule_flow_tables_after_failure(ctx):
     C08.rule_flow(R.Retag(ctx, "C08."))
 
 
+def rule_reviewed_offset_invariant(ctx):
+    """R1: the reviewed slice site `&self.buffer[start_offset..]` of Http2FingerprintExtractor::add_bytes is in range because
+    parsed_offset only ever advances by the bytes the frames parsed *in this call* occupy - the structural form of that reason is
+    C17.R3 (offset advance = bytes consumed by the frames just parsed), evaluated here as well"""
+    from ..engine import report as R
+    from . import C17
+    C17.rule_R3(R.Retag(ctx, "C17."))
+
+
 def run(ctx):
+    rule_reviewed_offset_invariant(ctx)
     rule_flow_tables_after_failure(ctx)
     rule_liveness(ctx)
     rule_poison(ctx)
